@@ -421,6 +421,8 @@ class SymReal(numbers.Real):
             return self
         if self.const is not None and self.const == 1 and self.nan is None:
             return o
+        if self.nan is None and o.nan is None and ((o.const is not None and o.const == 0) or (self.const is not None and self.const == 0)):
+            return SymReal.lit(0)  # exact reals: 0 * x = 0 (NaN/inf are outside the model unless flagged)
         nl = self.const is None and o.const is None
         return self._mk(o, self.t * o.t, nl)
 
@@ -845,6 +847,27 @@ class SymArr(np.ndarray):
         wh = kwargs.get("where", True)
         if isinstance(wh, np.ndarray) and wh.dtype == object:
             if _has_sym(wh):
+                if method == "__call__" and out is not None and len(out) == 1 and ufunc in (np.add, np.subtract, np.multiply, np.divide, np.true_divide) and len(inputs) == 2:
+                    # out[i] = f(a_i, b_i) where the mask holds, unchanged elsewhere; a division only assumes its divisor
+                    # non-zero where the mask holds
+                    o = out[0]
+                    a, b, m = np.broadcast_arrays(np.asarray(inputs[0], dtype=object), np.asarray(inputs[1], dtype=object), wh.view(np.ndarray))
+                    res = np.empty(o.shape, dtype=object)
+                    a, b, m = (np.broadcast_to(v, o.shape) for v in (a, b, m))
+                    ov = o.view(np.ndarray)
+                    for idx in np.ndindex(*o.shape):
+                        mi = _sb(m[idx])
+                        x, y = _sr(a[idx]), _sr(b[idx])
+                        if ufunc in (np.divide, np.true_divide):
+                            if _CTX is not None:
+                                _CTX.assume(z3.Implies(mi.t, y.t != 0))
+                            val = SymReal(x.t / y.t, nl=True, nan=_or(x.nan, y.nan))
+                        else:
+                            val = {np.add: x + y, np.subtract: x - y, np.multiply: x * y}[ufunc]
+                        old = _sr(ov[idx])
+                        res[idx] = SymReal(z3.If(mi.t, val.t, old.t), nl=val.nl or old.nl or mi.nl, nan=_or(val.nan, old.nan))
+                    ov[...] = res
+                    return o
                 raise ModelGap("ufunc where= with a symbolic mask is not modelled")
             kwargs["where"] = wh.view(np.ndarray).astype(bool)
         args = [i.view(np.ndarray) if isinstance(i, SymArr) else i for i in inputs]
